@@ -2671,6 +2671,8 @@ class LinearOperator(object):
             dim2 = ndimension + dim2
         if dim1 >= ndimension or dim2 >= ndimension or not isinstance(dim1, int) or not isinstance(dim2, int):
             raise RuntimeError("Invalid dimension")
+        if dim1 == dim2:
+            return self
 
         # Batch case
         if dim1 < ndimension - 2 and dim2 < ndimension - 2:
